@@ -61,6 +61,23 @@ pub fn generate(tier: &str, rng: &mut Prng) -> Vec<Case> {
             ops.push(Case::new(format!("ntt_roundtrip {}", ints(&a))));
             ops.push(Case::new(format!("ntt_mul {} {}", ints(&a), ints(&b))));
         }
+        // zero divisors: X^(n/2) -+ 1479 (1479^2 = -1 mod q) and their multiples have an NTT that vanishes on half of the
+        // slots, the first or the second half (a transform that takes a shortcut on zero blocks goes wrong here only)
+        if n >= 2 {
+            for sign in [1u64, Q - 1] {
+                let mut z = vec![0u64; n];
+                z[0] = sign * 1479 % Q;
+                z[n / 2] = (z[n / 2] + 1) % Q;
+                let r = rand_vec(rng, n);
+                let zr = schoolbook(&z, &r);
+                let b = rand_vec(rng, n);
+                for a in [&z, &zr] {
+                    ops.push(Case::new(format!("ntt_roundtrip {}", ints(a))));
+                    ops.push(Case::new(format!("ntt_mul {} {}", ints(a), ints(&b))));
+                    ops.push(Case::new(format!("ntt_mul {} {}", ints(&b), ints(a))));
+                }
+            }
+        }
         // X^i * X^j wraps with a sign
         for _ in 0..6 {
             let (i, j) = (rng.below(n as u64) as usize, rng.below(n as u64) as usize);
